@@ -196,7 +196,11 @@ func (h *Handler) freeLeases(now time.Time) error {
 			if Logger.IsInfo() {
 				Logger.Msg("freeing lease").Struct(lease).Write()
 			}
+			// as DECLINE and a selection of another server do: a freed lease holds no address. Left in place, the
+			// address made two table entries name it once it was leased again, and findByIP answered with
+			// whichever the map iteration met first
 			lease.State = StateFree
+			lease.Addr.IP = netip.Addr{}
 		}
 	}
 	return nil
